@@ -130,6 +130,8 @@ func Replay(col *core.Collector, data []byte, path string, times int) error {
 			report("C03", v)
 			report("C06", ev)
 			report("C20", sv)
+		case "c05-shorten":
+			report("C05", runC05Shorten(head.CaseSeed))
 		case "c14-full":
 			installDefaultExecutor()
 			v, t, _ := runC14Full(head.CaseSeed)
